@@ -85,8 +85,9 @@ CLAIMED = {
              'from_adjacency_matrices(*to_numpy_by_lag()) followed by the minimal graph has the node identifiers, directed edges '
              'and undirected pairs of the minimal graph and compares == to it (attributes are not carried by matrices), a cyclic '
              'minimal graph is refused on validated re-import; also for construct_minimal=False.',
-        note=_COMMON_NOTE + 'GML text layer trusted (labels "()" and "[]" are mangled by networkx and excluded); numpy / '
-                            'networkx.to_numpy_array assumed.'),
+        note=_COMMON_NOTE + 'GML text layer (networkx generate_gml / parse_gml / escape / unescape) transcribed and proved to round-trip '
+                            '(CG.C08Gml.parse_generate; exactly the labels "()" and "[]" do not survive) and compared with networkx on '
+                            'every GML export of the lane; networkx.to_numpy_array transcribed and proved (CG.NxReach); numpy indexing assumed.'),
     'C09': dict(
         technique='Lean 4 proof (skeleton as a function of the current state: one undirected edge per adjacent pair, symmetric '
                   'adjacency, orientation-agnostic queries, round trips) with differential correspondence through a handle taken '
